@@ -129,9 +129,6 @@ def failure_propagated(an, cs, dty):
     ps = an.paths()
     if ps is not None:
         # loop-free body: every path through the call site must know how the read ended, and a failed read must end in an error
-        ps = an.expand_trees(ps)
-        if ps is None:
-            return False, "cannot enumerate outcomes"
         through = [(t, st, [c for c in calls if c.block == cs.block][0]) for t, st, calls in ps if any(c.block == cs.block for c in calls)]
         if not through:
             return True, "the call is on no feasible path"
